@@ -218,6 +218,25 @@ func checkC04InPlace(c *MarshalToCase, wire []byte, ci *CaseInfo) error {
 	if len(q.Payload) > 0 || len(q.GetExtensionIDs()) > 0 {
 		ci.Nontrivial = true
 	}
+	// second stage: the forwarder pads the packet in place (probing); the padding trailer lands on
+	// dirty bytes behind the image while header and payload already sit where they belong
+	if k := 1 + int(c.Tweak%7); !q.Padding && c.SpareCap >= k {
+		q.Padding, q.PaddingSize = true, uint8(k)
+		want2, err := q.Marshal()
+		if err != nil || len(want2) != size+k {
+			return failf("in place: Marshal after adding %d padding octets: %d bytes, %v", k, len(want2), err)
+		}
+		n, err := q.MarshalTo(buf[:size+k])
+		if err != nil || n != size+k || !bytes.Equal(buf[:size+k], want2) {
+			return failf("in place: Unmarshal(buf), add %d padding octets, MarshalTo(buf[:%d]) over the packet's own image (dirty bytes behind it) gives n=%d err=%v\n  %s\nMarshal() of the same packet gave\n  %s", k, size+k, n, err, hb(buf[:size+k]), hb(want2))
+		}
+		for i := size + k; i < len(buf); i++ {
+			if buf[i] != 0x77 {
+				return failf("in place: MarshalTo wrote beyond the %d bytes of the padded packet", size+k)
+			}
+		}
+		ci.class("in-place-padding-added")
+	}
 
 	return nil
 }
@@ -261,7 +280,7 @@ func genMarshalToCase(t *rapid.T) *MarshalToCase {
 	return c
 }
 
-const ruleC04 = "C01's well-formed packets x destination lengths {0,1,11,12,hdr-1,hdr,hdr+1,size-1,size,size+1,size+7} or uniform in [0,size+16] x prior contents {zero,0xFF,0xEE,random} x spare capacity behind the destination (0 or 1-2000 bytes: a re-sliced pooled buffer); oracle: short destination -> io.ErrShortBuffer with n=0, otherwise n=MarshalSize, bytes identical to Marshal(), bytes beyond n untouched; same for Header.MarshalTo; one case in three also runs the forwarder pattern Unmarshal(buf) / change sequence number, timestamp, SSRC, marker, PT / MarshalTo(buf) over the packet's own wire image (only when that image is a Marshal fixed point, so the layout is unchanged): result = Marshal() of the changed packet, packet intact. Non-trivial = dirty destination with extension padding or >=2 RTP padding octets, or destination length in {size-1,size}; distinct = FNV-64 of the JSON case"
+const ruleC04 = "C01's well-formed packets x destination lengths {0,1,11,12,hdr-1,hdr,hdr+1,size-1,size,size+1,size+7} or uniform in [0,size+16] x prior contents {zero,0xFF,0xEE,random} x spare capacity behind the destination (0 or 1-2000 bytes: a re-sliced pooled buffer); oracle: short destination -> io.ErrShortBuffer with n=0, otherwise n=MarshalSize, bytes identical to Marshal(), bytes beyond n untouched; same for Header.MarshalTo; one case in three also runs the forwarder pattern Unmarshal(buf) / change sequence number, timestamp, SSRC, marker, PT / MarshalTo(buf) over the packet's own wire image (only when that image is a Marshal fixed point, so the layout is unchanged): result = Marshal() of the changed packet, packet intact; then, when the image has no RTP padding and there is room behind it, 1-7 padding octets are added and the packet is written in place once more. Non-trivial = dirty destination with extension padding or >=2 RTP padding octets, or destination length in {size-1,size}; distinct = FNV-64 of the JSON case"
 
 func TestC04(t *testing.T) {
 	r := begin(t, "C04", "exploration", ruleC04)
